@@ -652,7 +652,118 @@ def convert_family(quick):
     return fam
 
 
+# ---------------------------------------------------------------------------
+# leg failed-save: a SAVE cut short by a device error after k bytes leaves nothing behind
+
+FS_PROGRAM = [b'10 REM round trip', b'20 A%=1234:B$="HELLO WORLD"', b'30 FOR I=1 TO 10:PRINT I;A%*I:NEXT',
+              b'40 IF A%>1000 THEN GOTO 60 ELSE PRINT B$', b'50 GOSUB 70', b'60 END', b'70 RETURN']
+FS_EDIT = b'25 PRINT "edited"'
+
+
+class FailingStream(object):
+    """Accepts `limit` bytes, then every write fails like a faulty device."""
+
+    def __init__(self, limit):
+        self.limit = limit
+        self.accepted = 0
+
+    def write(self, data):
+        import errno
+        if self.accepted + len(data) > self.limit:
+            self.accepted = self.limit
+            raise IOError(errno.EIO, 'simulated device fault')
+        self.accepted += len(data)
+        return len(data)
+
+    def read(self, num=-1):
+        return b''
+
+    def flush(self):
+        pass
+
+    def close(self):
+        pass
+
+
+def _fs_session(root, tag):
+    d = os.path.join(root, tag)
+    os.makedirs(d)
+    s = H.new_session(devices={'C:': d}, current_device='C:')
+    for l in FS_PROGRAM:
+        r = H.run(s, l)
+        if r.exc is not None or r.out:
+            raise CheckError('line %r not accepted: %r' % (l, r))
+    return s, d
+
+
+def _fs_observe(s, d):
+    """Edit the program, save it in all three formats, load the protected file back: -> dict of observations."""
+    obs = {}
+    r = H.run(s, FS_EDIT)
+    for fmt in FORMATS:
+        r = H.run(s, b'SAVE "O%s"%s' % (fmt, b'' if fmt == b'B' else b',' + fmt))
+        obs['save-' + fmt.decode()] = (r.err, repr(r.exc) if r.exc is not None else None)
+        try:
+            with open(os.path.join(d, 'O%s.BAS' % fmt.decode()), 'rb') as f:
+                obs['file-' + fmt.decode()] = f.read()
+        except (IOError, OSError):
+            obs['file-' + fmt.decode()] = None
+    for fmt in (b'P', b'B'):
+        r = H.run(s, b'NEW')
+        r = H.run(s, b'LOAD "O%s"' % fmt)
+        obs['load-' + fmt.decode()] = (r.err, repr(r.exc) if r.exc is not None else None)
+        obs['memory-after-load-' + fmt.decode()] = snapshot(s)[0]
+    return obs
+
+
+def work_failed_save(shard):
+    from mc import fast
+    fast.quiet()
+    part = Partial()
+    with H.Scratch() as root:
+        s0, d0 = _fs_session(root, 'control')
+        mem0 = snapshot(s0)[0]
+        control = _fs_observe(s0, d0)
+        s0.close()
+        for n, (fmt, limit) in enumerate(shard):
+            case = {'fmt': fmt.decode(), 'limit': limit}
+            s, d = _fs_session(root, 'c%d' % n)
+            name = s.bind_file(FailingStream(limit))
+            r = H.run(s, b'SAVE "%s"%s' % (bytes(name), b'' if fmt == b'B' else b',' + fmt))
+            part.n += 1
+            part.traces += 1
+            if r.exc is not None:
+                part.violation('failed-save/host-exception/%s' % H.exc_key(r.exc), 'SAVE ,%s to a stream failing after %d bytes raised %r' % (
+                    fmt.decode(), limit, r.exc), case)
+                s.close()
+                continue
+            part.classes.add('failed-save/%s/%s' % (fmt.decode(), 'refused' if r.err is not None else 'fitted'))
+            if snapshot(s)[0] != mem0:
+                part.violation('failed-save/program-memory-changed', 'after SAVE ,%s cut short at %d bytes (error %r)' % (fmt.decode(), limit, r.err), case)
+            obs = _fs_observe(s, d)
+            for k in sorted(control):
+                if obs[k] != control[k]:
+                    part.violation('failed-save/%s/later-%s-differs' % (fmt.decode(), k.split('-')[0]),
+                                   'after a SAVE ,%s cut short at %d bytes (error %r): %s is %r..., in a session without the failed SAVE %r...' % (
+                                       fmt.decode(), limit, r.err, k, obs[k] if not isinstance(obs[k], bytes) else obs[k][:40],
+                                       control[k] if not isinstance(control[k], bytes) else control[k][:40]), case)
+                    break
+            s.close()
+    part.sample({'fmt': shard[0][0].decode(), 'limit': shard[0][1]})
+    return part
+
+
 def legs(ctx):
+    limits = list(range(0, 12)) + [40, 100, 142, 143, 144, 150, 10000]
+    fs = [(fmt, k) for fmt in FORMATS for k in (limits if not ctx.quick else limits[:6] + [100, 143, 10000])]
+    return _legs_main(ctx) + [
+        Leg('failed-save', list(chunked(fs, 9)), work_failed_save, exhaustive=True,
+            bound='SAVE in format B/P/A to a stream that fails after k bytes, k in %s: program memory unchanged, and a later edit + SAVE in '
+                  'all three formats + LOAD of the protected and the tokenised file give the same bytes as in a session without the '
+                  'failed SAVE' % (sorted(set(k for _, k in fs)),))]
+
+
+def _legs_main(ctx):
     out = []
     out.append(Leg('cipher-cells', [(lo, lo + 16) for lo in range(0, 256, 16)], work_cipher_cells,
                    exhaustive=True,
@@ -678,6 +789,8 @@ def legs(ctx):
 
 def replay(ctx, leg, case):
     part = Partial()
+    if leg == 'failed-save':
+        return work_failed_save([(case['fmt'].encode(), case['limit'])])
     if leg.startswith('cipher'):
         if 'plain' in case:
             _cipher_string(part, case['plain'], 'replay')
